@@ -325,9 +325,12 @@ class _VariationalStrategy(Module, ABC):
         if prior:
             return self.model.forward(x, **kwargs)
 
-        # Delete previously cached items from the training distribution
-        if self.training:
+        # Delete previously cached items from the training distribution, and items that were
+        # computed with a different Cholesky jitter (the cached factor is not keyed by it)
+        jitter_val = self.jitter_val
+        if self.training or getattr(self, "_cache_jitter_val", jitter_val) != jitter_val:
             self._clear_cache()
+        self._cache_jitter_val = jitter_val
         # (Maybe) initialize variational distribution
         if not self.variational_params_initialized.item():
             prior_dist = self.prior_distribution
